@@ -239,6 +239,21 @@ func VerifXRefTableSection() {
 	xt.Size = &size
 	root := *types.NewIndirectRef(1, 0)
 	xt.Root = &root
+	// incremental update: only the objects written in this increment are listed (free entries and
+	// object 0 are not), and the trailer carries /Prev
+	incr := vp.Bool()
+	if incr {
+		prev := int64(vp.IntIn(0, vp.Bound("OFFMAX")))
+		ctx.Write.Increment, ctx.Write.OffsetPrevXRef = true, &prev
+		anyWritten := false
+		for k := 0; k <= n; k++ {
+			if wants[k].free {
+				wants[k] = want{}
+			}
+			anyWritten = anyWritten || wants[k].present
+		}
+		vp.Assume(anyWritten) // an increment without a single object is not written at all
+	}
 	if err := writeXRefTable(ctx); err != nil {
 		return
 	}
